@@ -1,3 +1,196 @@
+// Package gen holds the seeded generators: keys, certificates, layouts, links,
+// supply chains, directory trees.
 package gen
 
-func WritePool(dir string) error { return nil }
+import (
+	"crypto"
+	"crypto/ecdsa"
+	"crypto/ed25519"
+	"crypto/elliptic"
+	"crypto/rand"
+	"crypto/rsa"
+	"crypto/x509"
+	"encoding/json"
+	"encoding/pem"
+	"fmt"
+	"os"
+	"path/filepath"
+	"sort"
+	"strings"
+
+	intoto "github.com/in-toto/in-toto-golang/in_toto"
+)
+
+// KeyPair is a key with everything the oracles need: the PEM encodings the
+// harness wrote itself, the standard-library key objects (ground truth) and the
+// in-toto Key objects obtained by loading the PEMs through the library.
+type KeyPair struct {
+	Name    string
+	Kind    string // rsa2048 rsa3072 ecdsa-p224 ecdsa-p256 ecdsa-p384 ecdsa-p521 ed25519
+	PrivPEM string // PKCS#8
+	PubPEM  string // PKIX
+	Signer  crypto.Signer
+	Public  crypto.PublicKey
+	Priv    intoto.Key // loaded from PrivPEM (has private half)
+	Pub     intoto.Key // loaded from PubPEM (public only)
+}
+
+var Kinds = []string{"rsa2048", "rsa3072", "ecdsa-p224", "ecdsa-p256", "ecdsa-p384", "ecdsa-p521", "ed25519"}
+
+// NewSigner generates a fresh standard-library key of the kind.
+func NewSigner(kind string) (crypto.Signer, error) {
+	switch kind {
+	case "rsa2048":
+		return rsa.GenerateKey(rand.Reader, 2048)
+	case "rsa3072":
+		return rsa.GenerateKey(rand.Reader, 3072)
+	case "ecdsa-p224":
+		return ecdsa.GenerateKey(elliptic.P224(), rand.Reader)
+	case "ecdsa-p256":
+		return ecdsa.GenerateKey(elliptic.P256(), rand.Reader)
+	case "ecdsa-p384":
+		return ecdsa.GenerateKey(elliptic.P384(), rand.Reader)
+	case "ecdsa-p521":
+		return ecdsa.GenerateKey(elliptic.P521(), rand.Reader)
+	case "ed25519":
+		_, k, err := ed25519.GenerateKey(rand.Reader)
+		return k, err
+	}
+	return nil, fmt.Errorf("unknown kind %s", kind)
+}
+
+func PEMOf(typ string, der []byte) string {
+	return string(pem.EncodeToMemory(&pem.Block{Type: typ, Bytes: der}))
+}
+
+// FromSigner builds a KeyPair (PEMs + library keys) from a signer.
+func FromSigner(name, kind string, s crypto.Signer) (KeyPair, error) {
+	kp := KeyPair{Name: name, Kind: kind, Signer: s, Public: s.Public()}
+	der, err := x509.MarshalPKCS8PrivateKey(s)
+	if err != nil {
+		return kp, err
+	}
+	kp.PrivPEM = PEMOf("PRIVATE KEY", der)
+	pder, err := x509.MarshalPKIXPublicKey(s.Public())
+	if err != nil {
+		return kp, err
+	}
+	kp.PubPEM = PEMOf("PUBLIC KEY", pder)
+	if err := kp.Priv.LoadKeyReaderDefaults(strings.NewReader(kp.PrivPEM)); err != nil {
+		return kp, fmt.Errorf("library cannot load %s private key: %w", kind, err)
+	}
+	if err := kp.Pub.LoadKeyReaderDefaults(strings.NewReader(kp.PubPEM)); err != nil {
+		return kp, fmt.Errorf("library cannot load %s public key: %w", kind, err)
+	}
+	return kp, nil
+}
+
+func NewKeyPair(name, kind string) (KeyPair, error) {
+	s, err := NewSigner(kind)
+	if err != nil {
+		return KeyPair{}, err
+	}
+	return FromSigner(name, kind, s)
+}
+
+type poolEntry struct {
+	Name    string `json:"name"`
+	Kind    string `json:"kind"`
+	PrivPEM string `json:"priv_pem"`
+}
+
+// WritePool generates the committed key pool (RSA generation is slow).
+func WritePool(dir string) error {
+	os.MkdirAll(dir, 0755)
+	spec := []struct {
+		kind string
+		n    int
+	}{{"rsa2048", 3}, {"rsa3072", 1}, {"ecdsa-p224", 1}, {"ecdsa-p256", 4}, {"ecdsa-p384", 1}, {"ecdsa-p521", 1}, {"ed25519", 5}}
+	var entries []poolEntry
+	for _, s := range spec {
+		for i := 0; i < s.n; i++ {
+			kp, err := NewKeyPair(fmt.Sprintf("%s-%d", s.kind, i), s.kind)
+			if err != nil {
+				return err
+			}
+			entries = append(entries, poolEntry{Name: kp.Name, Kind: kp.Kind, PrivPEM: kp.PrivPEM})
+		}
+	}
+	b, _ := json.MarshalIndent(entries, "", " ")
+	return os.WriteFile(filepath.Join(dir, "keys.json"), b, 0644)
+}
+
+// LoadPool loads the committed test keys.
+func LoadPool(root string) ([]KeyPair, error) {
+	b, err := os.ReadFile(filepath.Join(root, "pool", "keys.json"))
+	if err != nil {
+		return nil, err
+	}
+	var entries []poolEntry
+	if err := json.Unmarshal(b, &entries); err != nil {
+		return nil, err
+	}
+	var out []KeyPair
+	for _, e := range entries {
+		blk, _ := pem.Decode([]byte(e.PrivPEM))
+		if blk == nil {
+			return nil, fmt.Errorf("pool key %s: no PEM", e.Name)
+		}
+		k, err := x509.ParsePKCS8PrivateKey(blk.Bytes)
+		if err != nil {
+			return nil, err
+		}
+		s, ok := k.(crypto.Signer)
+		if !ok {
+			return nil, fmt.Errorf("pool key %s: not a signer", e.Name)
+		}
+		kp, err := FromSigner(e.Name, e.Kind, s)
+		if err != nil {
+			return nil, err
+		}
+		out = append(out, kp)
+	}
+	sort.Slice(out, func(i, j int) bool { return out[i].Name < out[j].Name })
+	return out, nil
+}
+
+// ByKind returns the pool keys of a kind.
+func ByKind(pool []KeyPair, kind string) []KeyPair {
+	var out []KeyPair
+	for _, k := range pool {
+		if k.Kind == kind {
+			out = append(out, k)
+		}
+	}
+	return out
+}
+
+// Fast returns pool keys that are cheap to sign with (no RSA).
+func Fast(pool []KeyPair) []KeyPair {
+	var out []KeyPair
+	for _, k := range pool {
+		if !strings.HasPrefix(k.Kind, "rsa") {
+			out = append(out, k)
+		}
+	}
+	return out
+}
+
+// Mixed returns n pool keys cycling through the key types.
+func Mixed(pool []KeyPair, n int) []KeyPair {
+	order := []string{"ed25519", "ecdsa-p256", "rsa2048", "ecdsa-p384", "ed25519", "ecdsa-p521", "rsa3072", "ecdsa-p224", "ecdsa-p256", "rsa2048"}
+	used := map[string]int{}
+	var out []KeyPair
+	for i := 0; len(out) < n; i++ {
+		kind := order[i%len(order)]
+		ks := ByKind(pool, kind)
+		if used[kind] < len(ks) {
+			out = append(out, ks[used[kind]])
+			used[kind]++
+		}
+		if i > 10*n+20 {
+			break
+		}
+	}
+	return out
+}
